@@ -1,48 +1,93 @@
 mod anchors;
+mod check;
+mod controls;
+mod exec;
+mod gen;
+mod gen2;
+mod handover;
 mod hashsigs;
 mod lib_iface;
 mod model;
+mod plan;
+mod purity;
+mod radix;
+mod report;
 mod rng;
+mod shrink;
+mod specs;
+mod storage;
 mod util;
+mod wire;
 
 include!(concat!(env!("OUT_DIR"), "/build_limits.rs"));
+
+fn usage() -> ! {
+    eprintln!("usage: hss-sim check <Cxx> <quick|thorough> | replay <file> | plan <profile> <run> [quick|thorough] | anchors | determinism <n> | exec-op");
+    std::process::exit(2)
+}
 
 fn main() {
     lib_iface::install_panic_hook();
     let args: Vec<String> = std::env::args().collect();
-    match args.get(1).map(|s| s.as_str()) {
-        Some("anchors") => {
-            let t = std::time::Instant::now();
-            match anchors::run(args.get(2).map(|s| s == "quick").unwrap_or(true)) {
-                Ok(r) => println!("anchors ok: {:?} in {:?}", r, t.elapsed()),
-                Err(e) => {
-                    eprintln!("ANCHOR FAILURE: {}", e);
-                    std::process::exit(2);
+    let seed: u64 = std::env::var("VERIF_SEED").ok().and_then(|s| s.parse().ok()).unwrap_or(check::DEFAULT_SEED);
+    // the library keeps ~100 KiB structures on the stack: run everything on a big-stack thread
+    let code = std::thread::Builder::new()
+        .stack_size(512 << 20)
+        .spawn(move || match args.get(1).map(|s| s.as_str()) {
+            Some("check") => {
+                let prop = args.get(2).cloned().unwrap_or_else(|| usage());
+                let tier = args.get(3).cloned().or_else(|| std::env::var("VERIF_TIER").ok()).unwrap_or_else(|| "quick".into());
+                match specs::spec(&prop, tier == "quick") {
+                    Some(s) => check::run_check(&s, &tier, seed),
+                    None => {
+                        eprintln!("no check for {}", prop);
+                        2
+                    }
                 }
             }
-        }
-        Some("probe") => {
-            use lib_iface::*;
-            for id in ALL_HASHES {
-                let n = id.n();
-                let seed: Vec<u8> = (0..n as u8).collect();
-                let params = vec![(4u32, 2u32), (2, 5)];
-                let t = std::time::Instant::now();
-                let (prv, pk) = match keygen(id, &params, &seed, None) { Outcome::Ok(x) => x, o => { println!("{:?} keygen {:?}", id, o.describe()); continue } };
-                let key = model::HssKey { hs: id.spec(), params: params.clone(), seed: seed.clone() };
-                println!("{:?} prv_eq={} pub_eq={} keygen {:?}", id, prv == model::prv_blob(&params, 0, &seed), pk == key.public_key(), t.elapsed());
-                let mut newk = vec![];
-                meter_reset();
-                let t = std::time::Instant::now();
-                let sig = sign(id, b"hello", &prv, &mut |k: &[u8]| { newk = k.to_vec(); Ok(()) }, None);
-                let el = t.elapsed();
-                if let Outcome::Ok(sig) = sig {
-                    let m = key.sign(0, b"hello", model::LsPolicy::K1Adjusted, model::CConv::Library).unwrap();
-                    println!("   sig_eq={} succ_eq={} meter={} sign {:?} verify={:?}", sig == m, newk == model::successor(&params, 0, &seed), meter_read(), el, verify(id, VerifyEntry::Fn, b"hello", &sig, &pk).describe());
-                } else { println!("   sign {:?}", sig.describe()); }
+            Some("replay") => check::replay(args.get(2).unwrap_or_else(|| usage())),
+            Some("exec-op") => {
+                purity::child_main();
+                0
             }
-        }
-        _ => eprintln!("usage"),
-    }
-    let _ = (BUILD_MAX_LEVELS, BUILD_TREE_HEIGHTS, BUILD_MIN_W, BUILD_IS_DEFAULT);
+            Some("anchors") => match anchors::run(args.get(2).map(|s| s != "thorough").unwrap_or(true)) {
+                Ok(r) => {
+                    println!("anchors ok: {:?}", r);
+                    0
+                }
+                Err(e) => {
+                    eprintln!("ANCHOR FAILURE: {}", e);
+                    2
+                }
+            },
+            Some("plan") => {
+                let profile = args.get(2).cloned().unwrap_or_else(|| usage());
+                let run: u64 = args.get(3).and_then(|s| s.parse().ok()).unwrap_or(0);
+                let quick = args.get(4).map(|s| s != "thorough").unwrap_or(true);
+                match gen::generate(&gen::GenCtx { verif_seed: seed, quick }, &profile, run) {
+                    Some(p) => {
+                        let rep = exec::run_plan(&p, true);
+                        println!("{}", serde_json::to_string(&p).unwrap());
+                        for e in &rep.events {
+                            println!("  {}", e);
+                        }
+                        for v in &rep.violations {
+                            println!("  !! {} [{}] {} @op{}: {}", v.property, v.key, v.oracle, v.op_index, v.detail);
+                        }
+                        println!("stats: steps={} signs={} releases={} deliveries={} faults={:?} probes={:?}", rep.stats.steps, rep.stats.sign_calls, rep.stats.releases, rep.stats.deliveries, rep.stats.fault_fired, rep.stats.probes);
+                        0
+                    }
+                    None => {
+                        eprintln!("no such plan");
+                        2
+                    }
+                }
+            }
+            Some("determinism") => specs::determinism(seed, args.get(2).and_then(|s| s.parse().ok()).unwrap_or(200)),
+            _ => usage(),
+        })
+        .unwrap()
+        .join()
+        .unwrap_or(2);
+    std::process::exit(code);
 }
